@@ -16,6 +16,14 @@ var propDefs = map[string]*PropDef{
 			"obligations listed in undecided.txt could not be decided by the tool and are NOT claimed",
 		},
 	},
+	"C02": {
+		ID: "C02", Funcs: "all", Floor: 20,
+		Unmech: []string{
+			"'appears only in escaped form' is reduced to a sink discipline: every write to the output is classified (template text, number, escape-filter result, body output, explicit opt-out) and the classification of each site is proved; that the escape filter neutralises the five characters is C17's subject and is assumed here",
+			"values marked safe come only from the listed constructors; that their text is body output or HTML-aware truncation is by inspection of those four functions",
+		},
+		Assume: []string{"filters[\"escape\"] is the built-in escape filter (ReplaceFilter is not used to swap it)"},
+	},
 	"C03": {
 		ID: "C03", Kinds: []string{"monotone", "writers"}, Funcs: "all", Floor: 25,
 		Unmech: []string{
